@@ -15,6 +15,7 @@ import (
 	"google.golang.org/grpc"
 	"google.golang.org/grpc/codes"
 	"google.golang.org/grpc/credentials/insecure"
+	lstatus "github.com/cockroachdb/errors/grpc/status"
 	grpcstatus "google.golang.org/grpc/status"
 
 	"verifharness/core"
@@ -140,6 +141,10 @@ func runC20(c *core.Ctx) {
 	// status code and message visible to a raw client
 	if want := codes.Code(ann.GRPC); st.Code() != want {
 		c.Violate("raw-code", "the gRPC status code visible to callers is not the code attached with WrapWithGrpcCode (Unknown otherwise)", fmt.Sprintf("%s\n%v want %v", t, st.Code(), want))
+	}
+	// ... and what the library's own status helper reports for the error the intercepting client received
+	if want, gotc := codes.Code(ann.GRPC), lstatus.Code(got); gotc != want {
+		c.Violate("client-code", "grpc/status.Code of the received error is not the code attached with WrapWithGrpcCode (Unknown otherwise)", fmt.Sprintf("%s\n%v want %v", t, gotc, want))
 	}
 	if st.Message() != e.Error() {
 		c.Violate("raw-message", "the gRPC status message is not the error's text", fmt.Sprintf("%s\n%q want %q", t, st.Message(), e.Error()))
